@@ -200,7 +200,7 @@ func (h *FSEventHandler) UpsertLastModTime(fileName string) (modTime time.Time, 
 	defer h.fileNameToLastModTimeMutex.Unlock()
 	previousModTime := h.fileNameToLastModTime[fileName]
 	currentModTime := fileInfo.ModTime()
-	if !currentModTime.After(previousModTime) {
+	if currentModTime.Equal(previousModTime) {
 		return currentModTime, false
 	}
 	h.fileNameToLastModTime[fileName] = currentModTime
